@@ -8,6 +8,9 @@ From BS Require Import Run.D_C06.
 From BS Require Run.D_C08.
 From BS Require Run.D_C10 Run.D_C16.
 From BS Require Import Run.D_C12.
+
+
+From BS Require Run.D_C05 Run.D_C14.
 Import ListNotations.
 Open Scope Z_scope.
 
@@ -238,6 +241,8 @@ Definition cmd_history (args : list sexp) : sexp :=
 Definition disp_ext (code : Z) (args : list sexp) : sexp :=
   let nn := code / 1000 in let sub := code mod 1000 in
   match nn with
+  | 5 => BS.Run.D_C05.disp_c05 sub args
+  | 14 => BS.Run.D_C14.disp_c14 sub args
   | 12 => disp_c12 sub args
   | 10 => BS.Run.D_C10.disp_c10 sub args
   | 16 => BS.Run.D_C16.disp_c16 sub args
